@@ -17,6 +17,7 @@ fn base_gen() -> GenProfile {
         verdicts: false,
         tiny: false,
         big_values: true,
+        big_pool_pct: 6,
     }
 }
 
@@ -81,6 +82,7 @@ pub fn spec(id: &str) -> Option<CheckSpec> {
             g.w.reopen = 1;
             g.w.iter_open = 3;
             g.w.iter_step = 6;
+            g.w.scan = 5;
             g.blob = BlobMode::Either;
             g.verdicts = false;
             a.point = true;
@@ -506,7 +508,31 @@ pub fn spec(id: &str) -> Option<CheckSpec> {
                 assumptions: ASSUME_COMMON.to_vec(),
                 finale: None,
                 per_op: None,
-                prepare: None,
+                prepare: Some(|c| {
+                    // values must identify the write they came from: no empty values here
+                    fn fix(k: &mut crate::spec::WKind) {
+                        if let crate::spec::WKind::Put(l) = k {
+                            if crate::spec::value_len(*l) == 0 {
+                                *l = 0;
+                            }
+                        }
+                    }
+                    for op in c.ops.iter_mut() {
+                        match op {
+                            crate::spec::Op::Insert { len, .. } | crate::spec::Op::Fill { len, .. } => {
+                                if crate::spec::value_len(*len) == 0 {
+                                    *len = 0;
+                                }
+                            }
+                            crate::spec::Op::Batch { items } => items.iter_mut().for_each(|(_, k)| fix(k)),
+                            crate::spec::Op::Ingest { entries, pre_writes } => {
+                                entries.iter_mut().for_each(|(_, k)| fix(k));
+                                pre_writes.iter_mut().for_each(|(_, k)| fix(k));
+                            }
+                            _ => {}
+                        }
+                    }
+                }),
             })
         }
         _ => None,
